@@ -53,12 +53,19 @@ Dom(f) == CASE f = "steps" -> StepsDom [] f = "inner" -> InnerDom [] f = "ktStar
             [] f = "ktFinish" -> KtFinishDom [] f = "ktRatio" -> RatioDom [] f = "maxStep" -> MaxStepDom
             [] f = "seed" -> SeedDom [] f = "conv" -> ConvDom
 
-\* Default::default()
-DefaultRec == [steps |-> 1000, inner |-> 1000, ktStart |-> "d01", ktFinish |-> "d0001", ktRatio |-> None,
-               maxStep |-> "d001", seed |-> None, conv |-> None]
-\* the command line with no option given
-CliRec == [steps |-> 100, inner |-> 1000, ktStart |-> "d01", ktFinish |-> None, ktRatio |-> None,
-           maxStep |-> "d001", seed |-> None, conv |-> None]
+\* A builder starts from Default::default() or from a command line; the values a field has when
+\* nobody set it are not part of any property (they may change between releases), so every script
+\* begins by giving each field a value: through the setters (origin "default"; kt_finish has no
+\* setter for None) or as options (origin "cli"; the seed is not an option, an absent
+\* --kt-finish / --kt-ratio / --convergence is None).
+DefaultStarts ==
+  { [steps |-> 10, inner |-> 2, ktStart |-> "hot", ktFinish |-> "cold", ktRatio |-> None, maxStep |-> "unit", seed |-> "s7", conv |-> None],
+    [steps |-> 3, inner |-> 1000, ktStart |-> "zero", ktFinish |-> "hotter", ktRatio |-> "rhalf", maxStep |-> "tiny", seed |-> "s8", conv |-> "csmall"],
+    [steps |-> 0, inner |-> 0, ktStart |-> "warm", ktFinish |-> "fzero", ktRatio |-> "r0", maxStep |-> "unit", seed |-> "s7", conv |-> "c0"],
+    [steps |-> 10, inner |-> 0, ktStart |-> "warm", ktFinish |-> "cold", ktRatio |-> "rbig", maxStep |-> "tiny", seed |-> "s8", conv |-> None],
+    [steps |-> 3, inner |-> 2, ktStart |-> "hot", ktFinish |-> "hotter", ktRatio |-> None, maxStep |-> "unit", seed |-> "s8", conv |-> "c0"] }
+CliStarts == [steps : StepsDom, inner : InnerDom, ktStart : KtStartDom, ktFinish : KtFinishDom \cup {None},
+              ktRatio : RatioDom, maxStep : MaxStepDom, seed : {None}, conv : ConvDom]
 
 VARIABLES b,        \* builder -> record of fields
           ghost,    \* what a reader of the calls expects each builder to hold
@@ -79,15 +86,8 @@ Derive(r) ==
   IN [steps |-> r.steps, innerEff |-> innerEff, loops |-> loops, ktStart |-> r.ktStart, cool |-> cool,
       maxStep |-> r.maxStep, seed |-> r.seed, conv |-> r.conv]
 
-\* every command line over the option values above (an absent option keeps its default)
-CliRecs == [steps : StepsDom \cup {CliRec.steps}, inner : InnerDom \cup {CliRec.inner},
-            ktStart : KtStartDom \cup {CliRec.ktStart}, ktFinish : KtFinishDom \cup {None},
-            ktRatio : RatioDom, maxStep : MaxStepDom \cup {CliRec.maxStep}, seed : {None}, conv : ConvDom]
-
 Init ==
-  /\ IF Origin = "default"
-     THEN b = [i \in B |-> DefaultRec]
-     ELSE \E r \in CliRecs : b = [i \in B |-> r]
+  /\ \E r \in (IF Origin = "default" THEN DefaultStarts ELSE CliStarts) : b = [i \in B |-> r]
   /\ ghost = b
   /\ ops = <<[op |-> "new", origin |-> Origin, rec |-> b[1]]>>
 
@@ -149,6 +149,7 @@ PassThrough == Built => LET e == LastBuild.expect
                /\ e.steps = r.steps /\ e.ktStart = r.ktStart /\ e.maxStep = r.maxStep
                /\ e.seed = r.seed /\ e.conv = r.conv
 
-TypeOK == /\ \A i \in B : \A f \in Fields : b[i][f] \in Dom(f) \cup {DefaultRec[f], CliRec[f]}
+TypeOK == /\ \A i \in B : \A f \in Fields :
+                 IF f \in {"steps", "inner"} THEN b[i][f] \in Dom(f) ELSE b[i][f] \in Dom(f) \cup {None}
           /\ Len(ops) <= MaxOps
 =============================================================================
